@@ -41,10 +41,12 @@ fn dec_to_atomics(d: Decimal) -> u128 {
 }
 
 impl PoolRun {
-    pub fn new(kinds: [bool; 2], decimals: [u8; 2], fees: [u128; 3], ptype: PairType, fund: u128) -> PoolRun { PoolRun::new_spelled(kinds, decimals, fees, ptype, fund, false) }
+    pub fn new(kinds: [bool; 2], decimals: [u8; 2], fees: [u128; 3], ptype: PairType, fund: u128) -> PoolRun { PoolRun::new_spelled(kinds, decimals, fees, ptype, fund, 0) }
 
-    /// `upper`: the pair's native assets are denoms with upper-case letters
-    pub fn new_spelled(kinds: [bool; 2], decimals: [u8; 2], fees: [u128; 3], ptype: PairType, fund: u128, upper: bool) -> PoolRun {
+    /// `spelling` 1: the pair's native assets are denoms with upper-case letters; 2: token-factory denoms
+    /// (`factory/<creator>/<subdenom>` - in the default build the pool treats them as any other native coin, burn included)
+    pub fn new_spelled(kinds: [bool; 2], decimals: [u8; 2], fees: [u128; 3], ptype: PairType, fund: u128, spelling: u8) -> PoolRun {
+        let upper = spelling == 1;
         let mut w = World::new();
         let collector = w.new_fee_collector();
         let factory = w.new_pool_factory(&collector);
@@ -52,7 +54,8 @@ impl PoolRun {
         for i in 0..2 {
             if kinds[i] {
                 // (`upper`: native denoms with upper-case letters, as IBC and liquid-staking denoms have)
-                let d = if i == 0 { if upper { "ampWHALE" } else { "uwhale" } } else if upper { "ibc/27394FB092D2ECCD56123C74F36E4C1F926001CEADA9CA97EA622B25F41E5EB2" } else { "uusdc" };
+                let d = if spelling == 2 { if i == 0 { "factory/migaloo1cxfsp0hg8qv8y7zf3h5vd42fxmg7dfwfhzc3kd/uwh" } else { "factory/migaloo1cxfsp0hg8qv8y7zf3h5vd42fxmg7dfwfhzc3kd/uus" } }
+                        else if i == 0 { if upper { "ampWHALE" } else { "uwhale" } } else if upper { "ibc/27394FB092D2ECCD56123C74F36E4C1F926001CEADA9CA97EA622B25F41E5EB2" } else { "uusdc" };
                 let a = w.add_denom(d);
                 w.factory_add_native(&factory, d, decimals[i]);
                 assets.push(a);
@@ -384,9 +387,10 @@ pub fn run_random(rec: &mut Rec, seed: u64, run: u64, nops: usize, stable: bool)
     let (cfg, amp) = if stable { stable_cfg(&mut r, run) } else { (random_cfg(&mut r, run), 0) };
     let fund: u128 = 1u128 << 122;
     let ptype = if stable { PairType::StableSwap { amp } } else { PairType::ConstantProduct };
-    // every fourth pool with a cw20 asset is instantiated directly, with that asset's address spelled in upper case
+    // every fourth pool with a cw20 asset is instantiated directly, with that asset's address spelled in upper case;
+    // a quarter of the pools trade denoms with upper-case letters, another quarter token-factory denoms
     let mut p = if (run / 4) % 4 == 3 && cfg.kinds != [true, true] { PoolRun::new_direct(cfg.kinds, cfg.decimals, cfg.fees, ptype, fund) }
-                else { PoolRun::new_spelled(cfg.kinds, cfg.decimals, cfg.fees, ptype, fund, (run / 4) % 4 == 1) };
+                else { PoolRun::new_spelled(cfg.kinds, cfg.decimals, cfg.fees, ptype, fund, match (run / 4) % 4 { 1 => 1, 2 => 2, _ => 0 }) };
     rec.emit(json!({
         "ev": "reset", "suite": "pool", "run": run, "seed": seed.to_string(), "ops": nops,
         "extra": {"kind": if stable { "stable" } else { "cp" }},
